@@ -305,7 +305,7 @@ var ccIDPool = []string{"i1", "i2", "I2"}
 
 func genC10(c *Ctx) error {
 	c.ShardSize = 20
-	c.Notes["rule"] = "two deployed chaincodes (TT, VT), two users and the admin. (one) arbitrary step sequences on one channel: customer / admin initiations (own token, grouped token, other channel's token, foreign token, wrong channel, ids a maintainer would reject, over-funded amounts) and the robot's createTo / cancel / commit / deleteFrom / deleteTo attempted at random times, also out of turn and repeated; observed after every step. (two) interleavings of user initiations on both channels with a robot that picks, at random, among the steps its protocol enables from the two ledgers, and with customers' certificates calling the robot's five functions (create-to with the origin's real record, cancel, commit, deletes; an accepted submission is executed by the robot's next batch); both ledgers observed at the end. Non-trivial: a history with >= 2 successful and >= 2 rejected steps / >= 3 robot steps."
+	c.Notes["rule"] = "two deployed chaincodes (TT, VT), two users and the admin. (one) arbitrary step sequences on one channel: customer / admin initiations (own token, grouped token, other channel's token, foreign token, wrong channel, ids a maintainer would reject, over-funded amounts) and the robot's createTo / cancel / commit / deleteFrom / deleteTo attempted at random times, also out of turn and repeated, the id now and then spelled ./id, id/ or x/../id (the same record); observed after every step. (two) interleavings of user initiations on both channels with a robot that picks, at random, among the steps its protocol enables from the two ledgers, and with customers' certificates calling the robot's five functions (create-to with the origin's real record, cancel, commit, deletes; an accepted submission is executed by the robot's next batch); both ledgers observed at the end. Non-trivial: a history with >= 2 successful and >= 2 rejected steps / >= 3 robot steps."
 	n := c.N(120, 2500)
 	for i := 0; i < n; i++ {
 		if i%2 == 0 {
@@ -321,6 +321,19 @@ func genC10(c *Ctx) error {
 
 func c10One(c *Ctx) error {
 	rng := c.Rng
+	// the robot's steps name a record by its id; the record's key is built by joining path elements, so "./id", "id/" and
+	// "x/../id" name the same record as "id" - for reading it and for removing it
+	spelled := func(id string) string {
+		switch rng.Intn(12) {
+		case 0:
+			return "./" + id
+		case 1:
+			return id + "/"
+		case 2:
+			return "x/../" + id
+		}
+		return id
+	}
 	cw, err := newCCWorld()
 	if err != nil {
 		return err
@@ -351,16 +364,16 @@ func c10One(c *Ctx) error {
 			term = fmt.Sprintf("OCreateTo %d (CC %d %d %d %d %d %s %s false) true", cw.idN(id), cw.chN[strings.ToUpper(tr.GetFrom())], cw.chN[strings.ToUpper(tr.GetTo())], s, g,
 				cw.w.Interner().Addr((&Account{Addr: tr.GetUser()}).AddrString()), coqZ(new(big.Int).SetBytes(tr.GetAmount())), coqBool(fwd))
 		case r < 65:
-			msg = cw.robotTx(ch, "cancelCCTransferFrom", id)
+			msg = cw.robotTx(ch, "cancelCCTransferFrom", spelled(id))
 			term = fmt.Sprintf("OCancelFrom %d", cw.idN(id))
 		case r < 80:
-			msg = cw.robotNB(ch, "commitCCTransferFrom", id)
+			msg = cw.robotNB(ch, "commitCCTransferFrom", spelled(id))
 			term = fmt.Sprintf("OCommitFrom %d", cw.idN(id))
 		case r < 90:
-			msg = cw.robotNB(ch, "deleteCCTransferFrom", id)
+			msg = cw.robotNB(ch, "deleteCCTransferFrom", spelled(id))
 			term = fmt.Sprintf("ODeleteFrom %d", cw.idN(id))
 		default:
-			msg = cw.robotNB(ch, "deleteCCTransferTo", id)
+			msg = cw.robotNB(ch, "deleteCCTransferTo", spelled(id))
 			term = fmt.Sprintf("ODeleteTo %d", cw.idN(id))
 		}
 		e := ccErr(msg)
